@@ -444,13 +444,13 @@ func checkC05(c *Ctx, r *Report) {
 		upd := findInstrs(f, callPred("(*"+swarmP+".dialQueue).UpdateOrAdd"))
 		r5.guard(f, "dq.UpdateOrAdd (join)", upd, "!ad.dialed", edgeBool(isLoadOfField(swarmP+".addrDial.dialed"), false), nil)
 	}
-	r5.onlyIn("call dialNextAddr", callPred("(*"+swarmP+".Swarm).dialNextAddr"), c.FnsOfPkg(swarmP), loopK)
+	r5.onlyCallers("call dialNextAddr", []string{"(*"+swarmP+".Swarm).dialNextAddr"}, c.FnsOfPkg(swarmP), loopK)
 	r5.onlyIn("write addrDial.dialed", fieldWritePred(swarmP+".addrDial.dialed"), c.FnsOfPkg(swarmP), loopK)
 
 	// ---- R6 ---------------------------------------------------------------
 	r6 := r.Rule("C05-R6", "E3", 3, "route to the transport: limitedDial <- dialNextAddr <- worker loop; AddDialJob only from limitedDial; dialFunc only from executeDial")
-	r6.onlyIn("call limitedDial", callPred("(*"+swarmP+".Swarm).limitedDial"), c.FnsOfPkg(swarmP), "(*"+swarmP+".Swarm).dialNextAddr")
-	r6.onlyIn("call AddDialJob", callPred(dl("AddDialJob")), c.FnsOfPkg(swarmP), "(*"+swarmP+".Swarm).limitedDial")
+	r6.onlyCallers("call limitedDial", []string{"(*"+swarmP+".Swarm).limitedDial"}, c.FnsOfPkg(swarmP), "(*"+swarmP+".Swarm).dialNextAddr")
+	r6.onlyCallers("call AddDialJob", []string{dl("AddDialJob")}, c.FnsOfPkg(swarmP), "(*"+swarmP+".Swarm).limitedDial")
 	r6.onlyIn("call dialFunc", func(in ssa.Instruction) bool { return isDynCallOfField(in, dlT+".dialFunc") }, c.FnsOfPkg(swarmP), dl("executeDial"))
 
 	// ---- R7 ---------------------------------------------------------------
